@@ -3,12 +3,36 @@ import common
 from props import system_common
 
 
+def written_off_jobs(rnd, prof, tier):
+    """a worker that has been TOLD to shut down but is still registered with tests in its book: the window between an
+    undecodable report (shutdown sent by the receiver thread) and the handling of the resulting errordown, while other
+    workers' completions are processed first — work-stealing / top-ups must not address the flagged node"""
+    if prof != "crash":
+        return []
+    import random
+    import drive_sim
+    jobs = []
+    for _ in range(60 if tier == "quick" else 1500):
+        seed = rnd.randrange(1 << 30)
+        r2 = random.Random(seed)
+        mode = r2.choice(["worksteal", "worksteal", "load", "loadscope"])
+        cfg = drive_sim.make_cfg(r2, {"profile": "crash", "mode": mode})
+        k = r2.randint(8, 13)
+        ids = ["t.py::t%d" % i for i in range(k)] if mode != "loadscope" else ["f%d.py::t%d" % (i // 3, i) for i in range(k)]
+        reports = [[0] for _ in range(k)]
+        reports[r2.randrange(min(4, k))] = [3]          # an early test's report cannot be rebuilt
+        cfg.update({"mode": mode, "numnodes": r2.choice([2, 3]), "coll": ids, "overrides": {}, "collreports": {}, "stops": [], "maxfail": 0,
+                    "requeue": 0, "max_restart": 6, "reports": reports, "durs": [0] * k, "specs": [0, 0, 0], "crashers": [], "chunk": None})
+        jobs.append({"kind": "online", "seed": seed, "cfg": cfg, "ext_crash_p": 0.0})
+    return jobs
+
+
 def run(out: common.Outcome):
     system_common.standard_run(
         out, "C16", [("nocrash", 0.3), ("crash", 0.7)], ["command_stream", "steal_protocol", "internal_error"],
         nontrivial=lambda r: len(r["cfg"]["coll"]) >= 2,
         rule="all modes; regular-language monitor over every down-wire (nothing after shutdown, at most one shutdown, valid indices, no index outstanding on two live workers, steals only of booked tests); non-trivial = at least two tests",
-        modes=None)
+        modes=None, extra_jobs=written_off_jobs)
 
 
 replay = system_common.replay
